@@ -2,6 +2,7 @@ import Mathlib.Tactic
 import Mathlib.Analysis.SpecialFunctions.Artanh
 import Mathlib.Analysis.SpecialFunctions.Log.Basic
 import Mathlib.Analysis.SpecialFunctions.Sqrt
+import Mathlib.Analysis.SpecialFunctions.Gamma.Basic
 import Flowjaxv.Model.Ad
 /-!
 # `EF`: reals extended by `+∞`, `−∞`, `NaN` with IEEE's special-value rules and EXACT finite arithmetic
@@ -68,6 +69,21 @@ def expm1 : EF → EF | fin r => fin (Real.exp r - 1) | pinf => pinf | ninf => f
 def sigmoid : EF → EF
   | fin r => fin (1 / (1 + Real.exp (-r))) | pinf => fin 1 | ninf => fin 0 | nan => nan
 
+def log1p : EF → EF
+  | fin r => if -1 < r then fin (Real.log (1 + r)) else if r = -1 then ninf else nan
+  | pinf => pinf | _ => nan
+/-- `log |Γ r|`: `+∞` at the poles `0, −1, −2, …` (where Mathlib's `Real.Gamma` is `0`) -/
+def lgamma : EF → EF
+  | fin r => if Real.Gamma r = 0 then pinf else fin (Real.log (Real.Gamma r))
+  | pinf => pinf | _ => nan
+/-- the derivative of `log Γ`.  TRUSTED PRIMITIVE: off the poles its value is the real number
+`deriv (log ∘ Γ) r`, i.e. the model ASSUMES that JAX's `digamma` returns a finite float wherever `lgamma` is
+differentiable (no overflow for representable positive arguments); at the poles the model says NaN. -/
+def digamma : EF → EF
+  | fin r => if Real.Gamma r = 0 then nan else fin (deriv (fun t => Real.log (Real.Gamma t)) r)
+  | pinf => pinf | _ => nan
+def isNaNb : EF → Bool | nan => true | _ => false
+
 instance : Add EF := ⟨add⟩
 instance : Mul EF := ⟨mul⟩
 instance : Neg EF := ⟨neg⟩
@@ -90,6 +106,11 @@ instance : Ad.Num EF where
   softplus := softplus
   expm1 := expm1
   sigmoid := sigmoid
+  log1p := log1p
+  lgamma := lgamma
+  digamma := digamma
+  inf := pinf
+  isNaN := isNaNb
 
 @[simp] theorem fin_add (a b : ℝ) : (fin a + fin b : EF) = fin (a + b) := rfl
 @[simp] theorem fin_sub (a b : ℝ) : (fin a - fin b : EF) = fin (a - b) := by
@@ -117,6 +138,15 @@ theorem num_log {r : ℝ} (h : 0 < r) : (Ad.Num.log (fin r) : EF) = fin (Real.lo
   show EF.log (fin r) = _; simp [EF.log, h]
 theorem num_sqrt {r : ℝ} (h : 0 ≤ r) : (Ad.Num.sqrt (fin r) : EF) = fin (Real.sqrt r) := by
   show EF.sqrt (fin r) = _; simp [EF.sqrt, h]
+theorem num_log1p {r : ℝ} (h : -1 < r) : (Ad.Num.log1p (fin r) : EF) = fin (Real.log (1 + r)) := by
+  show EF.log1p (fin r) = _; simp [EF.log1p, h]
+theorem num_lgamma {r : ℝ} (h : 0 < r) : (Ad.Num.lgamma (fin r) : EF) = fin (Real.log (Real.Gamma r)) := by
+  show EF.lgamma (fin r) = _; simp [EF.lgamma, (Real.Gamma_pos_of_pos h).ne']
+theorem num_digamma {r : ℝ} (h : 0 < r) :
+    (Ad.Num.digamma (fin r) : EF) = fin (deriv (fun t => Real.log (Real.Gamma t)) r) := by
+  show EF.digamma (fin r) = _; simp [EF.digamma, (Real.Gamma_pos_of_pos h).ne']
+@[simp] theorem num_isNaN_fin (r : ℝ) : (Ad.Num.isNaN (fin r) : Bool) = false := rfl
+@[simp] theorem num_inf : (Ad.Num.inf : EF) = pinf := rfl
 theorem num_artanh {r : ℝ} (h : |r| < 1) : (Ad.Num.artanh (fin r) : EF) = fin (Real.artanh r) := by
   show EF.artanh (fin r) = _; simp [EF.artanh, h]
 
